@@ -23,7 +23,7 @@ RULE = ("seeded base pipelines (1..8 nodes over the harness component library in
         "plus the fault-free run; detail level and file/directory output sampled per sub-run. distinct_nontrivial = "
         "distinct (pipeline digest, failure kind, node) sub-runs in which the planned failure actually happened "
         "(fault fired / expected exception type observed) or, for fault-free, all nodes ran."
-        " Further seeded dimensions: every subset of detail flags, existing dotted trace directory, transport fault after a node, bare/subclassed/non-string KeyError variants, None context values, non-finite parameters, runs started inside an except block, a node returning the wrong output type.")
+        " Further seeded dimensions: every subset of detail flags, existing dotted trace directory, transport fault after a node, bare/subclassed/non-string KeyError variants, None context values, non-finite parameters, runs started inside an except block, a node returning the wrong output type. Seventh round: config-borne failures are decided on an untraced run; the traced run must fail with the same exception.")
 REAL_COMPONENTS = ["semantiva.pipeline.Pipeline", "LocalSemantivaOrchestrator.execute", "node factory + nodes",
                    "parameter resolution", "context observers", "sweep/slicer/rename/delete/template factories",
                    "graph_builder", "semantic ids", "JsonlTraceDriver", "trace schemas (current tree)"]
